@@ -151,13 +151,11 @@ func FieldVar(t types.Type, idx int) *types.Var {
 // Calls lists the call instructions (call, go, defer) of fn in block order.
 func Calls(fn *ssa.Function) []ssa.CallInstruction {
 	var out []ssa.CallInstruction
-	for _, b := range fn.Blocks {
-		for _, in := range b.Instrs {
-			if c, ok := in.(ssa.CallInstruction); ok {
-				out = append(out, c)
-			}
+	Instrs(fn, func(in ssa.Instruction) {
+		if c, ok := in.(ssa.CallInstruction); ok {
+			out = append(out, c)
 		}
-	}
+	})
 	return out
 }
 
@@ -201,15 +199,6 @@ func (p *Prog) ClosuresCalling(fn *ssa.Function, names ...string) []*ssa.Functio
 		}
 	}
 	return out
-}
-
-// Instrs iterates over all instructions of fn.
-func Instrs(fn *ssa.Function, f func(ssa.Instruction)) {
-	for _, b := range fn.Blocks {
-		for _, in := range b.Instrs {
-			f(in)
-		}
-	}
 }
 
 // InstrIndex returns the index of in inside its block.
